@@ -158,18 +158,21 @@ fn run_counter_case(cap: usize, ops: &[Op], seen: &mut Seen) -> Result<(), Fail>
             }
             Op::DropG(k) => {
                 let crossing = m.live == m.cap && m.cap > 0;
+                let wakes_before = parked.as_ref().map(|r| r.wakes()).unwrap_or(0);
                 drop(guards.remove(k));
                 m.live -= 1;
                 if crossing {
                     if m.parked {
                         let rec = parked.take().unwrap();
                         m.parked = false;
-                        if rec.wakes() == 0 {
+                        // the wake-up is delivered by this very drop: a wake-up spent on an earlier drop that left the
+                        // counter full does not count (the registration would be gone when the slot really frees up)
+                        if rec.wakes() == wakes_before {
                             return Err(fail(
                                 "C17:counter:lost-wakeup-on-release",
                                 format!(
-                                    "guard drop took the count from capacity {} to {} but the task last answered 'unavailable' (waker #{}) was not woken",
-                                    m.cap, m.live, rec.id
+                                    "guard drop took the count from capacity {} to {} but the task last answered 'unavailable' (waker #{}) was not woken by it ({} earlier wake-up(s) while the counter stayed full)",
+                                    m.cap, m.live, rec.id, wakes_before
                                 ),
                             ));
                         }
